@@ -4,6 +4,7 @@ import (
 	"encoding/json"
 	"fmt"
 	"math/rand"
+	"sort"
 	"strings"
 
 	"github.com/truora/minidyn/interpreter"
@@ -20,7 +21,7 @@ type c07 struct{ base }
 
 func init() {
 	runner.Register(&c07{base{id: "C07", level: "exploration",
-		rule: "exhaustive single actions: every action kind x target shape {absent top-level, top-level scalar, map member, nested map member, list element inside / at / past the end, element of a nested list, set} x right-hand-side shape {value, path, +, -, if_not_exists(present / absent), list_append both orders}; every pairing of a copy (plain path, list_append(src, :e) with empty and non-empty :e, list_append(:e, src), if_not_exists(src, :d)) with an in-place change of the source or of a document INSIDE an element of the source, in every clause order; seeded: 1-4 clauses per expression incl. all four keywords together in random clause order, on items with 3-8 bystander attributes of all ten types, on present and absent items. Each case is executed (1) directly through interpreter.Language.Update on a copy and (2) for a sample through UpdateItem -> GetItem on both adapters; the result is compared with the oracle on EVERY attribute (targeted = specified value, removed = gone, all others equal in type and value). non-trivial = item has >=3 bystander attributes and the update changes the item; distinct by (update skeleton, target/operand kind vector).",
+		rule:        "exhaustive single actions: every action kind x target shape {absent top-level, top-level scalar, map member, nested map member, list element inside / at / past the end, element of a nested list, set} x right-hand-side shape {value, path, +, -, if_not_exists(present / absent), list_append both orders}; every pairing of a copy (plain path, list_append(src, :e) with empty and non-empty :e, list_append(:e, src), if_not_exists(src, :d)) with an in-place change of the source or of a document INSIDE an element of the source, in every clause order; seeded: 1-4 clauses per expression incl. all four keywords together in random clause order, on items with 3-8 bystander attributes of all ten types, on present and absent items. Each case is executed (1) directly through interpreter.Language.Update on a copy and (2) for a sample through UpdateItem -> GetItem on both adapters; the result is compared with the oracle on EVERY attribute (targeted = specified value, removed = gone, all others equal in type and value). non-trivial = item has >=3 bystander attributes and the update changes the item; distinct by (update skeleton, target/operand kind vector).",
 		assumptions: append([]string{"paths of one expression never overlap (generator guarantee; DynamoDB rejects overlaps)", "numbers are small decimals that float64 represents exactly (exact-decimal behaviour is C12's subject)"}, commonAssumptions...)}})
 }
 
@@ -77,9 +78,9 @@ type c07Case struct {
 	// IllPath names the shape of a target path that does not fit the item (a list index on a map, a map key on
 	// a list, a step into a scalar): the action can be applied to nothing, the request must not report success
 	IllPath string
-	U      *refmodel.Update
-	Item   val.Item // nil = absent
-	Values val.Item
+	U       *refmodel.Update
+	Item    val.Item // nil = absent
+	Values  val.Item
 }
 
 var c07SetTargets = []refmodel.Path{
@@ -430,7 +431,9 @@ func c07Exhaustive() []c07Case {
 			out = append(out, c07Case{U: &refmodel.Update{Actions: rev}, Item: c07BaseItem(r, 2), Values: used.Clone()})
 		}
 	}
-	set := func(p refmodel.Path, e *refmodel.UExpr) refmodel.Action { return refmodel.Action{Kind: "SET", Path: p, RHS: e} }
+	set := func(p refmodel.Path, e *refmodel.UExpr) refmodel.Action {
+		return refmodel.Action{Kind: "SET", Path: p, RHS: e}
+	}
 	rem := func(p refmodel.Path) refmodel.Action { return refmodel.Action{Kind: "REMOVE", Path: p} }
 	sib(rem(pth("l", 0)), rem(pth("l", 2)))
 	sib(rem(pth("l", 1)), rem(pth("l", 3)), rem(pth("l", 0)))
@@ -438,6 +441,15 @@ func c07Exhaustive() []c07Case {
 	sib(rem(pth("lnul", 0)), rem(pth("lnul", 2)), rem(pth("lnul", 6)))
 	sib(set(pth("l", 0), uv(":a")), set(pth("l", 1), uv(":b")))
 	sib(set(pth("l", 0), uv(":a")), rem(pth("l", 1)))
+	// positions past the end of the list: appended in the order of their element numbers, and not what a REMOVE of
+	// the same request (whose index refers to the list as it was) takes away
+	sib(set(pth("l", 9), uv(":a")), set(pth("l", 7), uv(":b")))
+	sib(set(pth("l", 7), uv(":a")), set(pth("l", 9), uv(":b")), set(pth("l", 8), uv(":c")))
+	sib(set(pth("l2", 2), uv(":a")), set(pth("l2", 1), uv(":b")))
+	sib(set(pth("l", 6), uv(":a")), rem(pth("l", 4)))
+	sib(set(pth("l", 6), uv(":a")), rem(pth("l", 4)), rem(pth("l", 5)), rem(pth("l", 0)))
+	sib(set(pth("l2", 1), uv(":a")), rem(pth("l2", 1)), rem(pth("l2", 0)))
+	sib(set(pth("l", 2, 5), uv(":a")), set(pth("l", 2, 3), uv(":b")), rem(pth("l", 2, 2)), rem(pth("l", 2, 0)))
 	sib(set(pth("l", 3), uv(":a")), rem(pth("l", 0)))
 	sib(set(pth("l", 0), up(pth("l", 1))), set(pth("l", 1), up(pth("l", 0))))
 	sib(set(pth("l", 2, 0), uv(":a")), rem(pth("l", 2, 1)))
@@ -568,7 +580,28 @@ func c07Random(r *rand.Rand) c07Case {
 	}
 	fresh := func(tmp val.Item) map[string]string {
 		m := map[string]string{}
-		for k, x := range tmp {
+		tk := []string{}
+		for k := range tmp {
+			tk = append(tk, k)
+		}
+		sort.Strings(tk)
+		for _, k := range tk {
+			x := tmp[k]
+			if r.Intn(3) == 0 {
+				// a request may use one placeholder in several places: reuse one that already stands for a value of
+				// the same type (every use reads the value of the REQUEST, whatever another action computes from it)
+				have := []string{}
+				for n2, x2 := range v {
+					if x2.K == x.K {
+						have = append(have, n2)
+					}
+				}
+				if len(have) > 0 {
+					sort.Strings(have)
+					m[k] = have[r.Intn(len(have))]
+					continue
+				}
+			}
 			nv++
 			n := fmt.Sprintf(":u%d", nv)
 			m[k] = n
